@@ -27,7 +27,7 @@ RULE = ("Hypothesis-generated sequences of 1..6 calls of anneal_qubo/quso/pubo/p
         "against an ASan+UBSan build of the extension compiled from the working tree: single variable, isolated variables, "
         "Matrix label gaps, degree up to 8, up to 40 terms (many on one spin: realloc growth), no couplings, only an offset, "
         "stale models whose terms cancelled, empty / zero-temperature schedules, num_anneals 1..50, with/without initial state, "
-        "both visiting orders. Oracle: no sanitizer report, child alive, C11's result oracle per call. "
+        "both visiting orders. Oracle: no sanitizer report, child alive, C11's result oracle per call, identical outcomes of seeded calls under two heap fill patterns (reads of uninitialised memory). "
         "Non-trivial = the sequence reaches the C entry points at least twice with different (function, #variables, #terms) shapes. "
         "Distinct = distinct spec hash.")
 ASSUMPTIONS = [
@@ -37,7 +37,7 @@ ASSUMPTIONS = [
     "a timeout of the child (60 s) is counted as inconclusive, not as a violation",
 ]
 
-_STATE = {"asan_path": None, "runtime": None, "worker": None}
+_STATE = {"asan_path": None, "runtime": None, "worker": None, "worker2": None}
 _C_FILES = ("_canneal.c", "anneal_quso.c", "anneal_puso.c", "random.c", "pcg_basic.c")
 
 
@@ -53,11 +53,12 @@ class WorkerDied(Exception):
 
 
 class Worker:
-    def __init__(self, build_path, sanitised=True):
+    def __init__(self, build_path, sanitised=True, fill=0xbe):
         env = dict(os.environ)
         if sanitised:
             env["LD_PRELOAD"] = _STATE["runtime"] or build.asan_runtime()
-            env["ASAN_OPTIONS"] = "detect_leaks=0:exitcode=99:abort_on_error=0:allocator_may_return_null=1"
+            env["ASAN_OPTIONS"] = ("detect_leaks=0:exitcode=99:abort_on_error=0:allocator_may_return_null=1:"
+                                   "max_malloc_fill_size=268435456:malloc_fill_byte=%d" % fill)
             env["UBSAN_OPTIONS"] = "print_stacktrace=1:halt_on_error=1:exitcode=98"
         env["PYTHONHASHSEED"] = "0"
         env.pop("PYTHONPATH", None)
@@ -91,9 +92,9 @@ class Worker:
         self.err.seek(0)
         return self.err.read().decode(errors="replace")
 
-    def call(self, calls, timeout=60):
+    def call(self, calls, timeout=60, digest=False):
         try:
-            self.p.stdin.write((jdumps({"calls": calls}) + "\n").encode())
+            self.p.stdin.write((jdumps({"calls": calls, "digest": digest}) + "\n").encode())
             self.p.stdin.flush()
         except (BrokenPipeError, OSError):
             rc = self.p.wait()
@@ -122,13 +123,16 @@ class Worker:
             self.kill()
 
 
-def _worker(fresh=False):
+def _worker(fresh=False, which="worker"):
     if fresh:
         return Worker(_STATE["asan_path"])
-    w = _STATE["worker"]
+    w = _STATE.get(which)
     if w is None or w.p.poll() is not None:
-        w = Worker(_STATE["asan_path"])
-        _STATE["worker"] = w
+        # the second worker fills fresh heap memory with a different byte pattern, so a result
+        # that depends on uninitialised memory differs between the two (ASan alone cannot see
+        # reads of uninitialised memory)
+        w = Worker(_STATE["asan_path"], fill=0xbe if which == "worker" else 0x5a)
+        _STATE[which] = w
     return w
 
 
@@ -163,7 +167,7 @@ def run_case(spec, rec):
     calls = list(spec["calls"])
     w = _worker()
     try:
-        results = w.call(calls)
+        results = w.call(calls, digest=True)
     except WorkerDied as d:
         _STATE["worker"] = None
         sig = sanitizer_signature(d.report, d.rc)
@@ -173,8 +177,27 @@ def run_case(spec, rec):
         _STATE["worker"] = None
         rec.add("timeout_inconclusive")
         return
+    # differential run under a different heap fill pattern: calls with an integer seed are
+    # deterministic, so their outcome (results, or the error they end in) must not change
+    if any(c["seed"] is not None for c in calls):
+        w2 = _worker(which="worker2")
+        try:
+            results2 = w2.call(calls, digest=True)
+        except WorkerDied as d:
+            _STATE["worker2"] = None
+            raise Violation(sanitizer_signature(d.report, d.rc), "child (fill 0x5a) exited rc=%r\n%s" % (d.rc, d.report[:3000]))
+        if results2 == "TIMEOUT":
+            _STATE["worker2"] = None
+            rec.add("timeout_inconclusive")
+        else:
+            for i, (c, r1, r2) in enumerate(zip(calls, results, results2)):
+                if c["seed"] is not None and r1 != r2:
+                    raise Violation("uninitialised_memory_dependence/%s" % c["func"],
+                                    "call %d (seed=%r) gives different outcomes when fresh heap memory is filled with 0xbe vs 0x5a: "
+                                    "%r vs %r" % (i, c["seed"], r1, r2))
+            rec.add("fill_differential_sequences")
     for i, r in enumerate(results):
-        if r is None:
+        if r is None or "ok" in r:
             continue
         if r["kind"].startswith("harness/"):
             raise HarnessError("worker harness error: %s" % r["detail"])
@@ -187,7 +210,7 @@ def run_case(spec, rec):
             raise Violation(sanitizer_signature(d.report, d.rc), "single call died: %s" % d.report[:2000])
         finally:
             fw.close()
-        if alone != "TIMEOUT" and alone[0] is None:
+        if alone != "TIMEOUT" and (alone[0] is None or "ok" in alone[0]):
             raise Violation("later_call_affected_by_earlier/" + r["kind"],
                             "call %d fails after its predecessors but passes alone: %s" % (i, r["detail"]))
         rec.add("c11_business/" + r["kind"])
